@@ -129,6 +129,11 @@ class Utils:
             return -1.0
 
     @staticmethod
+    def version_key(version: str) -> Tuple[Tuple[int, Union[int, str]], ...]:
+        '''Converts a dotted version string into a key that orders its components numerically (so that "10.0" > "9.9" and "0.10.6" > "0.7.0").  Non-numeric components sort before numeric ones.'''
+        return tuple((1, int(c)) if c.isdigit() else (0, c) for c in version.split('.'))
+
+    @staticmethod
     def parse_host_and_port(host_and_port: str, default_port: int = 22) -> Tuple[str, int]:
         '''Parses a string into a tuple of its host and port.  The port is 0 if not specified.'''
         host = host_and_port
